@@ -1,7 +1,7 @@
 (* Properties/C01.v — every successful conversion returns a well-formed, namespace-valid XForm with
    the ODK skeleton.  Statements only; proofs are in Proofs/{RT,Doc,Top,PinsTop}.v. *)
 Require Import PX.Base.Str PX.Model.Dom PX.Model.Top PX.Spec.XmlParse PX.Spec.XmlName PX.Spec.NsCheck
-  PX.Spec.Skeleton PX.Spec.DocsNs PX.Proofs.RT PX.Proofs.Doc PX.Proofs.Top PX.Proofs.PinsTop PX.Gen.Top.
+  PX.Spec.Skeleton PX.Spec.DocsNs PX.Proofs.RT PX.Proofs.Doc PX.Proofs.Top PX.Proofs.PinsTop PX.Gen.Top PX.Model.Names PX.Proofs.NamesOk PX.Proofs.PinsNames PX.Gen.Lexer.
 
 Definition parse_doc := xml_parse xml_namestart xml_namech.
 
@@ -47,6 +47,15 @@ Theorem C01_source_constants :
   /\ forallb (bound (s_entities :: declared NSMAP)) USED_PREFIXED_NAMES = true.
 Proof. exact (conj top_constants_pinned (conj nsmap_is_documented literal_prefixes_bound)). Qed.
 Print Assumptions C01_source_constants.
+
+(* 5. Every question / group / choice-column name that pyxform's own validator is_xml_tag accepts is an XML
+      Name, for ALL strings; and the NAME rule the matcher models is the one in the source now. *)
+Theorem C01_names_are_xml_names : forall s : str, is_xml_tag s = true -> xml_name s = true.
+Proof. exact names_are_xml_names. Qed.
+Print Assumptions C01_names_are_xml_names.
+Theorem C01_name_rule_pinned : LEXER_NAME = NAME_PATTERN_MODELLED.
+Proof. exact name_pattern_pinned. Qed.
+Print Assumptions C01_name_rule_pinned.
 
 (* non-vacuity: a concrete instance of the top-level shape meets every hypothesis *)
 Definition ex_top : node :=
